@@ -170,6 +170,13 @@ def _line(c, m):
         g = m.gaussian
         op = {'gmm-spherical': 'gmm-sph', 'gmm-diagonal': 'gmm-diag', 'gmm-full': 'gmm-full'}[family]
         return f'{op} {hd} {fbits(y)} {fbits(w)} {fbits(g.mean)} {fbits(g.covariance)}'
+    if family == 'vmfmm':
+        hd = _header(F, K, N, D, 1, c['wca'], sal)
+        v = m.vmf
+        lo, hi = c['opts'].get('min_concentration', 1e-10), c['opts'].get('max_concentration', 500)
+        yn = y / np.maximum(np.linalg.norm(y, axis=-1, keepdims=True), np.finfo(y.dtype).tiny)
+        return f'vmf {hd} {fbits(np.array([lo, hi]))} {fbits(yn)} {fbits(w)} {fbits(v.mean)} {fbits(v.concentration)} ' \
+               f'{fbits(v.log_norm())}'
     z = eu.unit(y)
     if family == 'cwmm':
         hd = _header(1, K, N, D, 1, c['wca'], sal)
@@ -224,6 +231,14 @@ def _compare(ctx, c, m, m_next, out):
         rep('mstep-gaussian-mean', ok, d)
         ok, d = _close(g[7].reshape(np.shape(gn.covariance)), gn.covariance)
         rep('mstep-gaussian-covariance', ok, d)
+    elif family == 'vmfmm':
+        vn = m_next.vmf
+        ok, d = _close(g[3].reshape(F, K, D), np.reshape(vn.mean, (F, K, D)))
+        rep('mstep-mean', ok, d)
+        # Banerjee's formula has condition ~ concentration near r_bar = 1
+        kn = np.reshape(vn.concentration, (F, K))
+        ok, d = _close(g[4].reshape(F, K), kn, scale=float(max(1.0, np.max(kn) ** 2)))
+        rep('mstep-concentration', ok, d)
     elif family.startswith('gmm-'):
         gn = m_next.gaussian
         ok, d = _close(g[3].reshape(F, K, D), np.reshape(gn.mean, (F, K, D)))
